@@ -2,6 +2,12 @@
 #include "engine.hpp"
 #include <cstring>
 #include <cstdio>
+#include <cerrno>
+#include <thread>
+#include <fcntl.h>
+#include <unistd.h>
+#include <sys/wait.h>
+#include <sys/syscall.h>
 
 using namespace nix;
 
@@ -337,6 +343,44 @@ void World::check_live(const Node &doc) {
     }
 }
 
+// a reader that is a different process: a freshly executed nixsim (own libhdf5 state, own nix statics, real clock, no disk seam)
+// opens the closed file and prints what it sees
+static bool other_process_observe(const std::string &path, bool rw, std::string &out) {
+    out.clear();
+    int fds[2];
+    if (pipe(fds) != 0) return false;
+    pid_t pid = fork();
+    if (pid < 0) { close(fds[0]); close(fds[1]); return false; }
+    if (pid == 0) {
+        dup2(fds[1], 1); close(fds[0]); close(fds[1]);
+        int dn = (int) syscall(SYS_openat, AT_FDCWD, "/dev/null", O_WRONLY);
+        if (dn >= 0) dup2(dn, 2);
+        std::string clk = std::to_string((long long) clock_now());
+        const char *argv[] = {"nixsim", "observe", path.c_str(), rw ? "rw" : "ro", clk.c_str(), nullptr};
+        execv("/proc/self/exe", (char *const *) argv);
+        _exit(127);
+    }
+    close(fds[1]);
+    char buf[65536];
+    for (;;) { ssize_t n = read(fds[0], buf, sizeof buf); if (n < 0 && errno == EINTR) continue; if (n <= 0) break; out.append(buf, (size_t) n); }
+    close(fds[0]);
+    int st = 0;
+    while (waitpid(pid, &st, 0) < 0 && errno == EINTR) {}
+    return WIFEXITED(st) && WEXITSTATUS(st) == 0;
+}
+
+static std::string first_diff_line(const std::string &a, const std::string &b) {
+    size_t i = 0, j = 0; int ln = 1;
+    while (i < a.size() && j < b.size()) {
+        size_t e1 = a.find('\n', i), e2 = b.find('\n', j);
+        std::string l1 = a.substr(i, e1 - i), l2 = b.substr(j, e2 - j);
+        if (l1 != l2) return "line " + std::to_string(ln) + ": '" + l1.substr(0, 120) + "' vs '" + l2.substr(0, 120) + "'";
+        if (e1 == std::string::npos || e2 == std::string::npos) break;
+        i = e1 + 1; j = e2 + 1; ln++;
+    }
+    return "length differs";
+}
+
 static void clock_jump(World &w, int sel) {
     static const int64_t d[] = {0, 0, 1, 2, 61, 3600, 86400 * 3, 86400 * 400, -1, -3600, -86400 * 30};
     int64_t dj = d[((unsigned) sel) % (sizeof(d) / sizeof(d[0]))];
@@ -376,8 +420,11 @@ static void ids_oracles(World &w, const Node &doc) {
     }
 }
 
+bool g_blind_twin = false;
+bool plan_is_twin(const Plan &p) { return p.swarm.lane == "tree" && ((p.swarm.entropy >> 24) % 4) == 0; }
+
 static void after_op(World &w, const Op &op, int rc) {
-    if (!w.is_open || w.failed()) return;
+    if (!w.is_open || w.failed() || w.blind) return;
     // an operation that was skipped (nothing to address) made no call that could change anything
     bool need = (op_modifies(op.kind) && rc != 2) || rc == 1 || !w.have_last;
     if (!need) return;
@@ -470,14 +517,17 @@ void World::run(const Plan &p, const std::string &d) {
     ghosts_allowed = s.lane == "abuse" || s.lane == "durable";
     clock_set(s.t0); clock_enable(true); sim_start = s.t0;
     entropy_seed(s.entropy);
+    pid_set(4000 + (int) ((s.entropy >> 9) % 3));
+    threaded_run = ((s.entropy >> 20) % 5) == 0;
+    twin_safe = plan_is_twin(plan);
+    blind = twin_safe && g_blind_twin;
     h5knob_set(s.cache_mode, s.sieve_mode);
     disk_set_perturb(s.entropy ^ 0x5151, s.perturb_pm);
     path = dir + "/f0.nix";
     disk_remove(path);
     cur = -1;
     if (!open_file(0, true)) { fail("C09.overwrite-empties", "could not create a file"); return; }
-    last = obs(); have_last = true;
-    seen_ids.insert(last.field("id"));
+    if (!blind) { last = obs(); have_last = true; seen_ids.insert(last.field("id")); }
     for (size_t i = 0; i < plan.ops.size() && !failed() && !stop; i++) {
         cur = (int) i;
         const Op &op = plan.ops[i];
@@ -490,12 +540,20 @@ void World::run(const Plan &p, const std::string &d) {
         std::map<std::string, ArrModel> s_arr; std::map<std::string, std::vector<DimModel> > s_dims; std::map<std::string, PropModel> s_prop; std::map<std::string, FrameModel> s_frame;
         if (ro_guard) { s_arr = arr; s_dims = dims; s_prop = prop; s_frame = frame; }
         double t0x = wall_now();
-        try {
-            rc = exec(op);
-        } catch (const std::exception &e) {
-            // an exception escaping an op's own handling: treated as "threw"
-            rc = 1;
-        }
+        // caller threads: in some runs a part of the operations is issued from a fresh thread of the program (one at a time: started
+        // and joined here, so nothing runs concurrently and the schedule stays a function of the seed); per-thread state inside the
+        // library (thread_local caches, generators) thereby meets the same file from several threads
+        bool threaded = threaded_run && ((op.sub >> 13) & 1) && op.kind != OP_kill && op.kind != OP_drop;
+        auto body = [&]() {
+            try {
+                rc = exec(op);
+            } catch (const std::exception &e) {
+                // an exception escaping an op's own handling: treated as "threw"
+                rc = 1;
+            }
+        };
+        if (threaded) { cnt.inc("ops_from_second_thread"); std::thread t(body); t.join(); }
+        else body();
         g_t_exec += wall_now() - t0x;
         if (ro_guard && is_open && mode == 1) { arr = s_arr; dims = s_dims; prop = s_prop; frame = s_frame; }   // nothing can have changed on a ReadOnly file (checked below)
         evh.u64((uint64_t) rc); evh.u64(fileless);
@@ -509,6 +567,7 @@ void World::run(const Plan &p, const std::string &d) {
         if (have_last) evh.u64(node_hash(last));
     }
     if (!failed() && is_open) { cur = (int) plan.ops.size(); close_file(false, 0); }
+    if (twin_safe && have_last && !failed_any()) disk_write_all(dir + (blind ? "/final.unobserved.txt" : "/final.observed.txt"), render(last));
     cnt.inc("sim_seconds", (uint64_t) (clock_now() > sim_start ? clock_now() - sim_start : 0));
     if (getenv("NIXSIM_PROF")) fprintf(stderr, "PROF obs=%.2f models=%.2f live=%.2f exec(incl. reopen obs)=%.2f\n", g_t_obs, g_t_models, g_t_live, g_t_exec);
 }
@@ -548,6 +607,24 @@ static int use_handle(World &w, Kept &k, int action, bool &threw_all) {
 }
 
 int World::exec_session(const Op &op) {
+    if (twin_safe && (op.kind == OP_kill || op.kind == OP_drop || op.kind == OP_flush_fault || op.kind == OP_use_stale || op.kind == OP_keep)) return 2;
+    if (blind && op.kind == OP_reopen) {
+        // the unobserved twin: close and reopen like the observed one, read nothing back - except after the plan's final restart
+        if (!is_open) return 2;
+        int m = op.a[0] & 1, via = op.a[1] & 1;
+        close_file(false, 0);
+        if (failed()) return 0;
+        clock_jump(*this, op.a[2]);
+        if (via) {
+            std::string np = dir + "/f" + std::to_string(++file_gen) + ".nix";
+            if (!disk_copy(path, np)) { fail("C02.restart-equal", "harness: snapshot copy failed"); return 0; }
+            disk_remove(path); path = np;
+        }
+        arg_class = std::string(m ? "RO" : "RW") + (via ? ",snapshot" : ",same-path") + ",unobserved-history";
+        if (!open_file(m, false)) { fail("C02.restart-equal", "reopening the closed file (" + arg_class + ") failed"); return 0; }
+        if (cur == (int) plan.ops.size() - 1) { ObsOpts o; last = observe(f, o, nullptr, &getters); have_last = true; cnt.inc("restart.unobserved_history_final"); }
+        return 0;
+    }
     switch (op.kind) {
     case OP_clock: clock_jump(*this, op.a[0]); return 0;
     case OP_flush: {
@@ -610,6 +687,17 @@ int World::exec_session(const Op &op) {
             cnt.inc("restart.snapshot");
         } else cnt.inc("restart.same_path");
         arg_class = std::string(m ? "RO" : "RW") + (via ? ",snapshot" : ",same-path");
+        if ((((unsigned) op.a[3]) % (lane_prop == "C02" ? 3u : 8u)) == 0) {
+            // C02 "in the same or in another process": before this process reopens the file a separate process reads it
+            std::string out, want = render(before) + "HASH " + hex64(node_hash(before)) + "\n";
+            bool rw = (op.a[3] / 8) % 4 == 0;
+            cnt.inc("restart.other_process");
+            if (!other_process_observe(path, rw, out)) fail("C02.restart-equal", "a separate reader process died or could not be started on the closed file");
+            else if (out.compare(0, 7, "THROWS ") == 0) fail("C02.restart-equal", "a separate process cannot open the closed file (" + std::string(rw ? "ReadWrite" : "ReadOnly") + "): " + out.substr(7, 200));
+            else if (out != want) fail("C02.restart-equal", "tree seen by a separate process after close differs from the tree before close at " + first_diff_line(want, out));
+            evh.str(out);
+            if (failed()) return 0;
+        }
         if (!open_file(m, false)) { fail("C02.restart-equal", "reopening the closed file (" + arg_class + ") failed"); return 0; }
         Node doc = obs();
         if (failed()) return 0;
